@@ -374,6 +374,10 @@ def documents(draw, profile, max_units=None, max_blocks=5, allow=None):
                     bl = []
                 row.append({"blocks": bl})
             rows.append(row)
+        if has("table.ragged") and c > 1 and chance(4):
+            # rows of different length (a caption-like first row, a short last row)
+            k = draw(st.integers(0, r - 1))
+            rows[k] = rows[k][:draw(st.integers(1, c - 1))]
         return {"k": "tbl", "rows": rows, "hdr": 1 if (has("table.header-rows") and chance(3)) else 0}
 
     def block(depth=0):
